@@ -394,10 +394,21 @@ def nbrs(R, a):
     return setof(lambda b: 0 <= b and b < len(R) and cross(R, a, b))
 
 
+DIGITS = "[0-9]+"
+
+
+@spec
+def parses_as(nm, a, b):
+    """what the read-back does with a variable name: nm.split('_') has three parts, the last two are plain decimal numerals
+    denoting a and b"""
+    return (len(nm.split('_')) == 3 and matches(nm.split('_')[1], DIGITS) and matches(nm.split('_')[2], DIGITS)
+            and int(nm.split('_')[1]) == a and int(nm.split('_')[2]) == b)
+
+
 @spec
 def var_ok(v, GI, GJ, VRO, RBV, R):
     """v is the decision variable x_{GI[v]}_{GJ[v]}: name, bounds 0..1, integer; the two dictionaries know it"""
-    return (v.name == "x_" + str(GI[ident(v)]) + "_" + str(GJ[ident(v)]) and v.lo == 0 and v.hi == 1 and v.cat == "Integer"
+    return (parses_as(v.name, GI[ident(v)], GJ[ident(v)]) and v.lo == 0 and v.hi == 1 and v.cat == "Integer"
             and (GI[ident(v)], GJ[ident(v)]) in VRO and VRO[(GI[ident(v)], GJ[ident(v)])] is v
             and v in RBV and RBV[v] == R[GI[ident(v)]])
 
@@ -590,7 +601,10 @@ class convert_to_dot_bracket:
         {"when": "before", "at": "for i in range(len(regions))", "label": "variables",
          "do": ["let A1 = frontier()", "let GI = fill(0, 0)", "let GJ = fill(0, 0)"]},
         {"when": "after", "at": "variable = pulp.LpVariable(", "label": "new-variable",
-         "do": ["let GI = upd(GI, ident(variable), i)", "let GJ = upd(GJ, ident(variable), j)"]},
+         "do": ["let GI = upd(GI, ident(variable), i)", "let GJ = upd(GJ, ident(variable), j)",
+                "use int_str_roundtrip(i)", "use int_str_roundtrip(j)", "use split3('x', str(i), str(j))",
+                "assert variable.name == 'x' + '_' + str(i) + '_' + str(j)",
+                "assert parses_as(variable.name, i, j)"]},
         {"when": "before", "at": "terms = []", "label": "variables-done", "do": ["let A2 = frontier()"]},
         {"when": "before", "at": "for i in graph.keys()", "label": "adjacency",
          "do": ["let ADJ = empty('dict[tuple[int,int,int],int]')", "let G0 = graph"]},
@@ -600,9 +614,7 @@ class convert_to_dot_bracket:
          "do": ["let SOLVED = True", "let STATUS = P0.status", "use esum_definition(P0)"]},
         {"when": "before", "at": "logging.warning('POA: failed", "label": "solver-raised", "do": ["let RAISED = True"]},
         {"when": "before", "at": "i, order = map(", "label": "parse-name",
-         "do": ["let VI = GI[ident(variable)]", "let VJ = GJ[ident(variable)]",
-                "use int_str_roundtrip(VI)", "use int_str_roundtrip(VJ)", "use split3('x', str(VI), str(VJ))",
-                "assert name == 'x' + '_' + str(VI) + '_' + str(VJ)"]},
+         "do": ["let VI = GI[ident(variable)]", "let VJ = GJ[ident(variable)]", "assert parses_as(name, VI, VJ)"]},
         {"when": "after", "at": "i, order = map(", "label": "parsed", "do": ["assert i == VI and order == VJ"]},
         {"when": "before", "at": "return self.__make_dot_bracket(regions, orders)", "label": "read-back",
          "do": ["forall a | use esum_witness(P0, a, max_order) | "
